@@ -232,6 +232,8 @@ def handle (j : Json) : IO Unit := do
       emit case bad.isEmpty bad.isEmpty "prodloop" (if bad.isEmpty then "" else "catalogue-not-updated-by-the-discovery-loop")
         (if bad.isEmpty then "" else s!"round {jnat (jget (bad.headD Json.null) "round")}: listed {(jget (bad.headD Json.null) "listed").compress}, model -> endpoints {(jget (bad.headD Json.null) "got").compress}, expected {(jget (bad.headD Json.null) "want").compress}")
   | "hist" =>
+    if jbool (jget impl "unsettled") then
+      emit case true true "trivial" "" "the background unification did not settle within 20 s (overloaded machine): history not judged"; return
     let seq := jstr (jget j "mode") != "forced"
     if !seq && active.inOrder == .fixed then
       -- the forced schedules go through an accessor that bypasses RegisterModels; with the ordering fix the
@@ -260,6 +262,8 @@ def handle (j : Json) : IO Unit := do
     emit case (mm == 0) (mm == 0) s!"overlap.readers{jnat (jget j "readers")}" (if mm == 0 then "" else "unified-listing-stale-under-concurrent-readers")
       (if mm == 0 then "" else s!"{mm} of {jnat (jget j "rounds")} rounds with {jnat (jget j "readers")} concurrent reader(s): {jstr (jget impl "first")}")
   | "conc" | "burst" =>
+    if jbool (jget impl "unsettled") then
+      emit case true true "trivial" "" "the background unification did not settle within 20 s (overloaded machine): rounds not judged"; return
     -- rounds of operations issued concurrently (conc: one goroutine per endpoint) or back to back without
     -- waiting (burst); one snapshot per round at quiescence. The model must explain every snapshot by SOME
     -- schedule; all schedules that explain the history so far are kept as candidates.
